@@ -686,10 +686,16 @@ def explicit_runs(h, res=None, memo="empty", flag=False, thorough=False):
                                 continue
                             x, y = ("a", bname) if not swap else (bname, "a")
                             try:
-                                if fname == "link_from_to":
-                                    out = h.call(fns[fname], p.arg(x), h.cls(kcls), p.arg(y), dontdup=dontdup)
-                                else:
-                                    out = h.call(fns[fname], p.arg(x), p.arg(y), dontdup=dontdup)
+                                # a builder that picks "some" joining link out of a set: which one is not specified (any is accepted below),
+                                # so the set is iterated in one fixed order here instead of forking
+                                h.w.set_order = "insertion"
+                                try:
+                                    if fname == "link_from_to":
+                                        out = h.call(fns[fname], p.arg(x), h.cls(kcls), p.arg(y), dontdup=dontdup)
+                                    else:
+                                        out = h.call(fns[fname], p.arg(x), p.arg(y), dontdup=dontdup)
+                                finally:
+                                    h.w.set_order = "fork"
                             except Unknown as u:
                                 if res is not None:
                                     res.ob(False)
